@@ -2,7 +2,8 @@
 """Re-run every stored seeded change (/verif/seeded/<name>/patch.diff) against /repo with the current checks:
 apply, run the property's quick check (thorough too if quick stays silent), undo.  Records the outcome in
 meta.json under "current" and prints the catch table.  usage: seed_rerun.py [name-prefix ...]"""
-import json, os, subprocess, sys, time
+import json, os, tempfile, subprocess, sys, time
+os.environ.setdefault('VERIF_EVIDENCE_DIR', __import__('tempfile').mkdtemp(prefix='pcfgverif-ev-', dir='/dev/shm' if os.path.isdir('/dev/shm') else None))
 V = os.path.dirname(os.path.dirname(os.path.abspath(__file__)))
 R = os.environ.get('VERIF_REPO', '/repo')
 def sh(cmd, cwd=None, timeout=4000):
@@ -33,6 +34,7 @@ for name in names:
                 break
     finally:
         sh(f'git -C {R} checkout -- .')
+        sh(f'/venv/bin/python {V}/harness/translate.py {R} {V}/lean/PcfgVerif/PcfgVerif/Generated')      # Generated/*.lean back to the tree as it is
     meta['current'] = cur
     json.dump(meta, open(os.path.join(d, 'meta.json'), 'w'), indent=1, ensure_ascii=False)
     caught = next((t for t in ('quick', 'thorough') if cur.get(t, {}).get('exit') == 1), 'MISSED')
